@@ -266,6 +266,31 @@ CHECKS["C03"] = dict(
               "reference interpreter, concrete replay",
     design="2/C03")
 
+CHECKS["C04"] = dict(
+    level="translation_validation",
+    text="For shipped Integrator x IntegratorStep pairs (all pairs of "
+         "integrator.py x integrator_step.py plus every other Integrator "
+         "subclass with WCSPHStep in the quick tier; all pairs, one and two "
+         "arrays, in the thorough tier) the generated integrator module is "
+         "lowered to Python and step(t, dt) executed on arrays of exact-real "
+         "symbols with 0-2 real and 0-1 ghost particles, with the real "
+         "Python Integrator.compute_accelerations/update_domain behind it. "
+         "The reference runs the REAL one_timestep of the same class on an "
+         "object implementing the documented primitives with the Python "
+         "stepper methods. On every path the event traces (py_stage hooks, "
+         "stepper calls per real particle with the t and dt they see, "
+         "nnps.update, compute(index, t, dt), update_domain, post-stage "
+         "callback (t+stage_dt, dt, stage)) and all final array values "
+         "(ghosts untouched) must be equal - values via z3.",
+    note="Cython->Python lowering trusted (C int semantics not reproduced); "
+         "NNPS/evaluator/callback are recorders; one step from an arbitrary "
+         "symbolic pre-state; generated integrators/steppers beyond the "
+         "shipped ones are not produced",
+    technique="translation validation: symbolic execution of the lowered "
+              "generated module vs. the python source of one_timestep and "
+              "the stepper methods, z3 equality of all results per path",
+    design="2/C04")
+
 NOT_APPLICABLE = {
     "C05": "whole-application runs of compiled OpenMP code compared across "
            "configurations up to summation order: no unit a solver can "
